@@ -79,11 +79,6 @@ package gorp
 //@ # discharged within the time budget and are listed as not covered for C17.
 
 //@ pure func (d *delta[K, V]) isEmpty() bool
-//@ # lo.Keys: the keys of the set, in some order (assumed)
-//@ trusted func (s set.Set[T]) Slice() (r []T)
-//@   tparams T comparable
-//@   ensures forall k T :: (exists i int :: 0 <= i && i < len(r) && r[i] == k) == __in(s, k)
-//@   modifies nothing
 
 //@ spec func inKeys[K Key](s []K, k K) bool = exists i int :: 0 <= i && i < len(s) && s[i] == k
 //@ spec func inVals[V comparable](s []V, v V) bool = exists i int :: 0 <= i && i < len(s) && s[i] == v
